@@ -17,7 +17,8 @@ EXPLANATION = (
     "OrderValidation: the exchange dispatch and the order-type dispatch both end in a refusal for unknown "
     "kinds; per order type exactly the required validators are called; each validator contains its guards "
     "with the right orientation (None, <= 0, more than two decimals, price not on the market's ladder, the "
-    "minimum stake / payout / liability conjunction) and every failing guard refuses the order; validation is "
+    "minimum stake / payout / liability conjunction) and every failing guard refuses the order; each client minimum "
+    "is read from its own column of the currency table on every read; validation is "
     "the first default control; (R3) the helpers that take the ladder as a parameter consult no fixed ladder table. "
     "Not decided: make_prices / get_nearest_price / price_ticks_away / "
     "make_line_prices as arithmetic (rounding, idempotence, tick distances)."
